@@ -207,6 +207,10 @@ func init() {
 			m.unwind = int(m.conc(a[0], "unwind"))
 			return nil
 		},
+		"setMerge": func(m *Machine, c *frame, f *ssa.Function, a []Value) Value {
+			m.noIfConv = !a[0].(*Term).IsTrue()
+			return nil
+		},
 		"mapOrderAll": func(m *Machine, c *frame, f *ssa.Function, a []Value) Value {
 			m.mapOrderAll = a[0].(*Term).IsTrue()
 			return nil
